@@ -65,6 +65,7 @@ func (p *part[C]) safe(c C) (v verdict) {
 	watchOnce.Do(watchFlights)
 	f := &flight{id: p.id, part: p.name, c: c, start: time.Now(), rec: p.recorder}
 	curFlight.Store(f)
+	flightCount.Add(1)
 	defer func() {
 		curFlight.CompareAndSwap(f, nil)
 		if r := recover(); r != nil {
@@ -90,8 +91,9 @@ type flight struct {
 const flightBudget = 150 * time.Second
 
 var (
-	curFlight atomic.Pointer[flight]
-	watchOnce sync.Once
+	curFlight   atomic.Pointer[flight]
+	flightCount atomic.Int64
+	watchOnce   sync.Once
 )
 
 // hangCleanup ends the helper processes of the harness that has some (set in its main_test.go)
@@ -116,7 +118,7 @@ func watchFlights() {
 		for {
 			time.Sleep(2 * time.Second)
 			if f := curFlight.Load(); f != nil && time.Since(f.start) > flightBudget {
-				reportHang(f.id, f.part, f.c, f.rec, fmt.Sprintf("the case did not finish within %v (cases of this part take from microseconds to a few seconds): a call it makes blocks, or its work does not end", flightBudget))
+				reportHang(f.id, f.part, f.c, f.rec, fmt.Sprintf("the case did not finish within %v (cases of this part take from microseconds to a few seconds): a call it makes blocks, or its work does not end. It was case number %d of this process (VERIF_SEED=%s, tier %s): if it returns when run alone, the block depends on the calls made before it - re-run the check with that seed", flightBudget, flightCount.Load(), os.Getenv("VERIF_SEED"), os.Getenv("VERIF_TIER")))
 			}
 		}
 	}()
